@@ -38,6 +38,11 @@ var n04Re = regexp.MustCompile("(?is)\\s(?:on[a-z]+|style)\\s*=\\s*(?:\"[^\"]*|'
 var ampBoilerRe = regexp.MustCompile("(?i)amp-boilerplate(?:\\s*=\\s*(?:\"[^\"]*\"|'[^']*'|[^\\s>]*))?")
 var bodyHeadRe = regexp.MustCompile("(?is)<body\\s*>(?:\\s|<!--.*?-->)*<(?:script|style|link|meta|template|noscript|base|title|bgsound|basefont|noframes)\\b")
 
+var n06Re = regexp.MustCompile("(?is)<embed\\b[^>]*>|</audio[ \t\n\f\r]*>")
+var n07Re = regexp.MustCompile("(?i)</(?:template|datalist)[ \t\n\f\r]*>")
+var viewportRe = regexp.MustCompile("(?i)name\\s*=\\s*[\"']?\\s*(?:&[#a-z0-9]+;|[a-z])*viewport|viewport")
+var digitRefRe = regexp.MustCompile("&#(?:[xX]0*3[0-9]|0*4[89]|0*5[0-7]);")
+
 func labelNew(c *Case, v *vh.Violation, gone func(*Case) bool) {
 	sig := v.Signature
 	has := func(p string) bool { return strings.HasPrefix(sig, p) }
@@ -80,13 +85,21 @@ func labelNew(c *Case, v *vh.Violation, gone func(*Case) bool) {
 			return
 		}
 	}
-	if has("words-joined:box-embed~") || has("words-joined:box-audio~") || has("keep-whitespace:words-joined:box-embed~") || has("keep-whitespace:words-joined:box-audio~") {
-		v.Signature = "N06:space-after-embed-or-audio-dropped:" + sig
-		return
+	if has("words-joined:") || has("keep-whitespace:words-joined:") {
+		if n06Re.MatchString(c.Input) && gone(variant(func(t *Case) { t.Input = n06Re.ReplaceAllString(c.Input, "${0}x") })) {
+			v.Signature = "N06:space-after-embed-or-audio-dropped:" + sig
+			return
+		}
+		if n07Re.MatchString(c.Input) && gone(variant(func(t *Case) { t.Input = n07Re.ReplaceAllString(c.Input, "${0}x") })) {
+			v.Signature = "N07:space-after-invisible-element-dropped:" + sig
+			return
+		}
 	}
-	if (has("words-joined:") || has("keep-whitespace:words-joined:")) && (strings.HasSuffix(sig, ":template") || strings.HasSuffix(sig, ":datalist")) {
-		v.Signature = "N07:space-after-invisible-element-dropped:" + sig
-		return
+	if c.StubAmp && (has("stub-output-not-inserted:event-attr:ampersand") || has("stub-output-not-inserted:style-attr:ampersand")) {
+		if gone(variant(func(t *Case) { t.StubAmp = false })) {
+			v.Signature = "N13:sub-minifier-output-not-ampersand-escaped-in-attribute:" + sig
+			return
+		}
 	}
 	if has("keep-quotes:quotes-removed:event") && c.Registry == "real" {
 		if gone(variant(func(t *Case) { t.Registry = "none" })) {
@@ -97,6 +110,20 @@ func labelNew(c *Case, v *vh.Violation, gone func(*Case) bool) {
 	if ampBoilerRe.MatchString(c.Input) && (has("verbatim-content-changed:style") || has("passthrough-changed:style") || has("structure:")) {
 		if gone(variant(func(t *Case) { t.Input = ampBoilerRe.ReplaceAllString(c.Input, "data-x") })) {
 			v.Signature = "N09:amp-boilerplate-style-treated-as-text:" + sig
+			return
+		}
+	}
+	if has("attr-value-changed:html:text:content") && digitRefRe.MatchString(c.Input) {
+		if gone(variant(func(t *Case) {
+			t.Input = digitRefRe.ReplaceAllStringFunc(c.Input, func(m string) string { return xhtml.UnescapeString(m) })
+		})) {
+			v.Signature = "N11:meta-viewport-number-shortened-before-reference-decoding:" + sig
+			return
+		}
+	}
+	if has("attr-value-changed:html:text:content") && c.Opts.TemplateDelims && strings.Contains(c.Input, "{{") {
+		if gone(variant(func(t *Case) { t.Opts.TemplateDelims = false })) {
+			v.Signature = "N12:meta-content-with-template-action-corrupted:" + sig
 			return
 		}
 	}
